@@ -906,6 +906,11 @@ fn eval0(g: &G, pos: usize, env: Env, w: &mut World) -> R {
             let bd = Bounds::new(n, Some(n));
             run_sink(&Sink::Vec, pos, env, w, &mut |k, p, w| rep_next(item, &bd, k, p, env, w))
         }
+        RepCtxMax(item) => {
+            let n = count_of(env.ctx) as u8;
+            let bd = Bounds::new(0, Some(n));
+            run_sink(&Sink::Vec, pos, env, w, &mut |k, p, w| rep_next(item, &bd, k, p, env, w))
+        }
         TryRepCtx(item) => {
             if env.ctx == 'c' {
                 let err = w.custom_err(pos, (pos, pos), "TC");
@@ -1174,6 +1179,8 @@ pub struct Outcome {
     /// only possible with an as-implemented switch on: a parser failed without leaving an error,
     /// so the reported error is whatever the top level fabricates (not compared)
     pub failed_without_alt: bool,
+    /// the grammar contains no backtracking construct (see `G::is_straight_line`)
+    pub straight_line: bool,
 }
 
 pub const CTX0: Tok = '\0';
@@ -1200,7 +1207,7 @@ pub fn parse(g: &G, toks: &[Tok], sw: Sw, probes: Probes) -> (Outcome, Stats) {
         w.stats.unspecified += 1;
     }
     (
-        Outcome { output, emitted: w.emitted.clone(), primary, matched_prefix, final_state: w.state, unspecified: w.unspecified, failed_without_alt: w.failed_without_alt },
+        Outcome { output, emitted: w.emitted.clone(), primary, matched_prefix, final_state: w.state, unspecified: w.unspecified, failed_without_alt: w.failed_without_alt, straight_line: g.is_straight_line() },
         w.stats,
     )
 }
